@@ -612,6 +612,17 @@ func replay(file string) int {
 		b.cleanup()
 		die2("%v", err)
 	}
+	// the simulated schedule of a replay is exact, but whether ThreadSanitizer reports a
+	// race on it also depends on incidental happens-before edges inside the Go runtime
+	// (sync.Pool in fmt / encoding/json, allocator) that vary with the real scheduling: a
+	// report is sound whenever it appears, its absence in one execution is not a proof.
+	// A race replay is therefore executed up to 8 times.
+	for attempt := 1; rf.Race && r.V == nil && attempt < 8; attempt++ {
+		if r, err = runOne(b, rf.Params, rf.Race); err != nil {
+			b.cleanup()
+			die2("%v", err)
+		}
+	}
 	if r.V == nil {
 		fmt.Printf("replay of %s: no violation on the current tree\n", file)
 		return 0
